@@ -191,11 +191,13 @@ FIXED_CUBES = [
 
 
 def enum_histories(tier):
-    cubes = FIXED_CUBES[:2] if tier == "quick" else FIXED_CUBES
-    for ci, spec in enumerate(cubes):
+    # quick: two descending-band cubes to depth 4 and the ascending-band cube to depth 3
+    cubes = [0, 1, 3] if tier == "quick" else [0, 1, 2, 3]
+    for ci in cubes:
+        spec = FIXED_CUBES[ci]
         dms, ps = targets(spec)
         alpha = [("dm", v) for v in dms] + [("p", v) for v in ps]
-        depth = 4 if (tier == "quick" or ci > 0) else 5
+        depth = (3 if ci == 3 else 4) if tier == "quick" else (5 if ci == 0 else 4)
         for L in range(1, depth + 1):
             for seq in itertools.product(range(len(alpha)), repeat=L):
                 yield {"cube": ci, "ops": list(seq)}
@@ -212,9 +214,9 @@ def check_enum(case, ctx):
 def strat_random(draw):
     nbands = draw(st.integers(1, 6))
     nchans = nbands * draw(st.integers(4, 16))
-    foff = draw(st.sampled_from([-1.0, -2.0, -0.5, 1.0, -4.0]))
+    foff = draw(st.sampled_from([-1.0, 1.0, -1.0])) * draw(st.sampled_from([1.0, 2.0, 0.5, 4.0]))  # either band orientation
     if abs(foff * nchans) < 50:
-        foff = -50.0 / nchans * 1.5
+        foff = (1.0 if foff > 0 else -1.0) * 50.0 / nchans * 1.5
     spec = {"nints": draw(st.integers(1, 5)), "nbands": nbands, "nbins": draw(st.integers(8, 64)),
             "seed": draw(st.integers(0, 2**31 - 1)), "nchans": nchans, "foff": foff,
             "fch1": draw(st.sampled_from([200.0, 350.0, 500.0, 800.0])) + (abs(foff) * nchans if foff < 0 else 0.0),
